@@ -681,7 +681,7 @@ fn main() {
      distinct = field-presence class of the generated value resp. the tampering vector",
   );
   let mut rng = args.rng(7);
-  let n = (if args.thorough { 300_000u64 } else { 6_000 } * scale / 1000 / args.nshards).max(30);
+  let n = (if args.thorough { 12_000_000u64 } else { 6_000 } * scale / 1000 / args.nshards).max(30);
   for _ in 0..n {
     cx.credential_roundtrip(&mut rng);
   }
@@ -689,7 +689,7 @@ fn main() {
     cx.presentation_roundtrip(&mut rng);
   }
   // tampered credential claims: 6*4*2*3*2*3*2*3*4 = 20736 vectors, all enumerated (x date extremes drawn at random)
-  let reps = if args.thorough { 6 } else { 1 };
+  let reps = if args.thorough { 40 } else { 1 };
   let mut k = 0u64;
   for _ in 0..reps {
     for idx in 0..20736u64 {
